@@ -486,3 +486,17 @@ M('r7self-tc-trace-sum-of-phases', ['C07', 'C13'], TU,
   "        _, pa = pauli_combine(temp_acqs[:N].unsqueeze(0), gs_stb[:N], ps_stb) # phase of the ordered product of the selected stabilizers\n",
   "        ga = torch.cumsum(temp_acqs.unsqueeze(-1)*torch.cat((ps_stb, ps_stb)).unsqueeze(0), dim=-1) % 2\n        pa = torch.sum(torch.cat((ps_stb, ps_stb))*temp_acqs + ipow(ga, ga), dim=0) % 4\n", ['R7.self'])
 M('r7self-py-expect', ['C07'], PU, 'pa = (pa + ps_stb[j-N] + ipow(ga, gs_stb[j-N]))%4', 'pa = (pa + ps_stb[j-N] + ipow(ga, ga))%4', ['R7'], 'stabilizer_expect')
+
+
+# ------------------------------------------------------------------ behaviour-preserving refactorings written by independent sub-agents
+def _load_refactors():
+    """selftest/refactors/*.diff: each was checked by its author against recorded reference outputs (>= 300 cases, both random
+    generators seeded) and keeps the 58 stable tests green; every claimed check must stay silent on each."""
+    import glob, os
+    here = os.path.dirname(os.path.abspath(__file__))
+    allp = ['C%02d' % i for i in range(1, 21) if i != 8]
+    for p in sorted(glob.glob(os.path.join(here, 'refactors', '*.diff'))):
+        CASES.append({'id': 'refactor-' + os.path.basename(p)[:-5], 'props': allp, 'kind': 'benign', 'edits': [('PATCH', p)]})
+
+
+_load_refactors()
